@@ -50,7 +50,11 @@ func (o *Outcome) violate(sig, format string, args ...any) {
 			return
 		}
 	}
-	o.Viol = append(o.Viol, Violation{Sig: sig, Detail: fmt.Sprintf(format, args...)})
+	detail := fmt.Sprintf(format, args...)
+	if len(detail) > 6000 {
+		detail = detail[:3000] + fmt.Sprintf(" ...[%d bytes omitted]... ", len(detail)-6000) + detail[len(detail)-3000:]
+	}
+	o.Viol = append(o.Viol, Violation{Sig: sig, Detail: detail})
 }
 
 func (o *Outcome) stat(name string, n int) {
